@@ -5,7 +5,7 @@
 
 package diff
 
-//@ property C08: Diff, lines
+//@ property C08: Diff, lines, testscript/(*TestScript).doCmdCmp
 //@ bounded C08: TestVerifBoundedDiff
 //@ bounded C08: TestVerifBoundedDiffGaps
 
